@@ -14,3 +14,7 @@ add("C04", "runtime monitor: response programs executed by a real handler, captu
     "Held on the executions produced: every response of every generated program sequence (status x header ops x body op incl. streams and the chunked writer with zero-length writes and flushes x sizes x HEAD x close x HTTP/1.0) decoded to exactly the programmed status, application fields and body, with consistent framing, no body where forbidden, and the next response starting where the previous ended.",
     "Trusted: strict parser and net/http as independent decoders; the response program interpreter in the handler.",
     "DESIGN.md §4 C04")
+add("C05", "runtime monitor: strict CRLF line splitter over messages serialised after reflectively enumerated header-writing calls with marker payloads (bounded-exhaustive token sequences + random)",
+    "Held on the executions produced: for every header-writing entry point found by reflection on RequestHeader, ResponseHeader, Trailer, Cookie, Request and the RequestContext helpers, with payloads placing CR, LF, CRLF, NUL, colon, SP and a marker field in every string position, the serialised head/trailer had no surviving CR/LF, no marker line, no colon-less line and no more non-automatic lines than calls made. Thorough enumerates all 7380 token sequences per entry point.",
+    "Trusted: the line oracle; entry-point filter (name prefixes and an exclusion list printed in the evidence notes).",
+    "DESIGN.md §4 C05")
